@@ -33,6 +33,30 @@ class ContinueSignal(Exception):
     pass
 
 
+def is_nonlinear(t, _memo=None):
+    """Does the term multiply or divide by something that is not a numeral (or use a power)?"""
+    if not is_z3(t):
+        return False
+    memo = {} if _memo is None else _memo
+    k = t.get_id()               # ids are stable while `t` (the root) is alive
+    if k in memo:
+        return memo[k]
+    r = False
+    if z3.is_app(t):
+        kind = t.decl().kind()
+        ch = t.children()
+        if kind == z3.Z3_OP_MUL:
+            r = sum(1 for c in ch if not (z3.is_rational_value(c) or z3.is_int_value(c))) > 1
+        elif kind in (z3.Z3_OP_DIV, z3.Z3_OP_IDIV, z3.Z3_OP_MOD, z3.Z3_OP_REM):
+            r = not (z3.is_rational_value(ch[1]) or z3.is_int_value(ch[1]))
+        elif kind == z3.Z3_OP_POWER:
+            r = True
+        if not r:
+            r = any(is_nonlinear(c, memo) for c in ch)
+    memo[k] = r
+    return r
+
+
 class PathAbort(Exception):
     """The current path is infeasible (or was cut by assume)."""
 
@@ -307,9 +331,12 @@ class Engine(object):
         while True:
             self.cursor = 0
             self.pc = []
+            self.nl = []
             self.inputs = {}
             self.solver = z3.Solver()
             self.solver.set('timeout', 2000)
+            self.solver_full = z3.Solver()
+            self.solver_full.set('timeout', 2000)
             self.call_depth = 0
             self._fresh_path = {}
             n += 1
@@ -332,22 +359,39 @@ class Engine(object):
         self._fresh_path[base] = k + 1
         return '%s!%d' % (base, k)
 
+    def _add(self, cond):
+        """Record a path constraint.  Nonlinear ones stay out of the incremental feasibility solver (they make
+        every later branch query a nonlinear one); dropping them there only admits more paths, and every
+        obligation is still proved under the full path condition self.pc."""
+        self.pc.append(cond)
+        self.solver_full.add(cond)
+        if is_nonlinear(cond):
+            self.nl.append(cond)
+        else:
+            self.solver.add(cond)
+
     def assume(self, cond):
         cond = concretize(cond) if is_z3(cond) else cond
         if cond is True:
             return
         if cond is False:
             raise PathAbort()
-        self.pc.append(cond)
-        self.solver.add(cond)
+        self._add(cond)
 
-    def feasible(self, cond):
+    def feasible(self, cond, precise=False):
         t0 = time.time()
-        r = self.solver.check(cond)
+        if self.nl and is_nonlinear(cond):
+            # a nonlinear question needs the nonlinear facts of the path: the full incremental solver
+            r = self.solver_full.check(cond)
+        else:
+            r = self.solver.check(cond)
+            if r != z3.unsat and precise and self.nl:
+                # a branch that raises (division by zero, domain error): ask again under the full path condition
+                r = self.solver_full.check(cond)
         self.solver_seconds += time.time() - t0
         return r != z3.unsat
 
-    def branch(self, cond):
+    def branch(self, cond, precise=False):
         """Decide a symbolic condition on this path; returns a Python bool."""
         if isinstance(cond, bool):
             return cond
@@ -359,7 +403,7 @@ class Engine(object):
         if idx < len(self.stack):
             val = self.stack[idx][0]
         else:
-            t_ok = self.feasible(cond)
+            t_ok = self.feasible(cond, precise)
             if not t_ok:
                 val, flipped = False, True
             else:
@@ -367,8 +411,7 @@ class Engine(object):
                 val, flipped = True, (not f_ok)
             self.stack.append([val, flipped])
         c = cond if val else z3.Not(cond)
-        self.pc.append(c)
-        self.solver.add(c)
+        self._add(c)
         return val
 
     def truth(self, v):
